@@ -85,6 +85,9 @@ const ENC = {
   unionOptFirst: (m, c) => { const i = c.inner(m); return { type: `${i.type} | ${lit(i.map.map(allReq))}`, decls: i.decls, map: i.map }; },
   unionOptLast: (m, c) => { const i = c.inner(m); return { type: `${lit(i.map.map(allReq))} | ${i.type}`, decls: i.decls, map: i.map }; },
   unionOptMiddle: (m, c) => { const n = c.fresh('U'); const i = c.inner(m); return { type: n, decls: i.decls.concat([`type ${n} = ${lit(i.map.map(allReq))} | ${i.type} | ${lit(i.map.map(allReq))};`]), map: i.map }; },
+  // the selected member is itself declared as another string-keyed access of the same type (two accesses of one type nested in one resolution, no cycle)
+  indexSelf: (m, c) => { const n = c.fresh('O'); const i = c.inner(m); return { type: `${n}['a']`, decls: i.decls.concat([`type ${n} = { a: ${n}['b']; b: ${i.type}; other: string };`]), map: i.map }; },
+  indexSelfIface: (m, c) => { const n = c.fresh('O'); const i = c.inner(m); return { type: `${n}["a"]`, decls: i.decls.concat([`interface ${n} { a: ${n}["b"]; b: ${n}['c']; c: ${i.type} }`]), map: i.map }; },
   indexIface: (m, c) => { const n = c.fresh('O'); const i = c.inner(m); return { type: `${n}['k']`, decls: i.decls.concat([`interface ${n} { k: ${i.type}; other: string }`]), map: i.map }; },
 };
 const ENC_KEYS = Object.keys(ENC);
